@@ -74,9 +74,9 @@ def run(ctx):
                                 "--robj", 8]))
         runs.append(("tm_all", ["--depth", 7, "--nobj", 3, "--allids", 1, "--random", 0]))
     else:
-        runs.append(("tm_sym", ["--depth", 13, "--nobj", 4, "--random", 0]))
+        runs.append(("tm_sym", ["--depth", 14, "--nobj", 4, "--random", 0]))
         runs.append(("tm_all", ["--depth", 9, "--nobj", 4, "--allids", 1, "--random", 0]))
-        runs.append(("tm_5", ["--depth", 11, "--nobj", 5, "--random", 0]))
+        runs.append(("tm_5", ["--depth", 12, "--nobj", 5, "--random", 0]))
         runs.append(("tm_rand", ["--depth", 1, "--nobj", 4, "--random", 200, "--rlen", 500,
                                  "--robj", 12]))
     total_rows = total_hist = 0
